@@ -236,7 +236,7 @@ static char *string_literal_end(char *p) {
   for (; *p != '"'; p++) {
     if (*p == '\n' || *p == '\0')
       error_at(start, "unclosed string literal");
-    if (*p == '\\')
+    if (*p == '\\' && p[1])
       p++;
   }
   return p;
@@ -320,7 +320,7 @@ static Token *read_utf32_string_literal(char *start, char *quote, Type *ty) {
 
 static Token *read_char_literal(char *start, char *quote, Type *ty) {
   char *p = quote + 1;
-  if (*p == '\0')
+  if (*p == '\0' || (*p == '\\' && p[1] == '\0'))
     error_at(start, "unclosed char literal");
 
   int c;
@@ -507,7 +507,7 @@ Token *tokenize(File *file) {
     // Skip line comments.
     if (startswith(p, "//")) {
       p += 2;
-      while (*p != '\n')
+      while (*p && *p != '\n')
         p++;
       has_space = true;
       continue;
